@@ -67,6 +67,7 @@ class Profile(object):
         self.elem_names = True
         self.top_tags = True
         self.wide_additions = True
+        self.via_ref_floor = True
         for k, v in kw.items():
             if not hasattr(self, k):
                 raise AttributeError(k)
@@ -335,7 +336,7 @@ class _G(object):
     def anytype(self, mod, depth, self_name=None):
         P = self.p
         r = self.d(st.integers(0, 99))
-        if P.refs and self.avail and r < 22:
+        if P.refs and self.avail and r < 30:
             t = self.ref(mod)
             if t is not None:
                 return t
@@ -344,7 +345,10 @@ class _G(object):
         return self.prim(mod, depth)
 
     def member_names(self, n):
-        names = self.d(st.lists(st.sampled_from(MEMBER_NAMES), min_size=n, max_size=n,
+        # biased towards a few names so that different containers share member names (the
+        # compiled-type cache of the library is keyed by member name + referenced type)
+        pool = MEMBER_NAMES[:5] * 5 + MEMBER_NAMES
+        names = self.d(st.lists(st.sampled_from(pool), min_size=n, max_size=n,
                                 unique_by=(lambda s: s.lower().replace('-', '_'))
                                 if self.p.unique_member_names_ci else (lambda s: s)))
         return names
@@ -385,9 +389,12 @@ class _G(object):
             m = Member(nm, ty)
             if not in_choice:
                 r = self.d(st.integers(0, 99))
-                if P.optionals and r < 30:
+                via_ref = (ty.kind == 'REF')
+                if P.optionals and r < (20 if via_ref else 30):
                     m.optional = True
-                elif P.defaults and r < 50:
+                elif P.defaults and r < (70 if via_ref else 50):
+                    # defaults on members whose type is a reference are converted by different
+                    # code in the library than defaults on inline types: keep them frequent
                     self.try_default(m, mod)
             return m
 
@@ -661,8 +668,11 @@ class _G(object):
         tnames = self.d(st.lists(st.sampled_from(TYPE_NAMES), min_size=nt, max_size=nt, unique=True))
         for name in tnames:
             mod = self.pick(self.modules)
-            if self.chance(75):
-                t = self.constructed(mod, 0, self_name=name) if P.constructed else self.prim(mod, 0)
+            r = self.d(st.integers(0, 99))
+            if r < 65 and P.constructed:
+                t = self.constructed(mod, 0, self_name=name)
+            elif r < 85:
+                t = self.prim(mod, 0)       # named primitive types: targets for references
             else:
                 t = self.anytype(mod, 0, self_name=name)
             if t.kind == 'REF' and t.ref == name:
@@ -675,7 +685,55 @@ class _G(object):
             if P.tags and P.top_tags and self.chance(12) and t.kind != 'REF':
                 t.tag = self.rand_tag(spec, t, mod, set())
             self.avail.append((mod.name, name, asn.base_kind(spec, t, mod.name)))
+        if P.defaults and P.refs and P.via_ref_floor and self.chance(30):
+            self.defaults_via_ref(self.pick(self.modules), set(tnames))
         return Spec(self.modules)
+
+    def defaults_via_ref(self, mod, tnames):
+        """Stratification floor: named primitive types and two containers whose members
+        share names and referenced types but differ in DEFAULT / OPTIONAL."""
+        P = self.p
+        kinds = [k for k in ('BOOLEAN', 'INTEGER', 'ENUMERATED', 'BIT STRING', 'OCTET STRING', 'IA5String',
+                             'NumericString', 'UTF8String', 'PrintableString') if k in P.kinds]
+        if not kinds:
+            return
+        n = self.d(st.integers(1, min(4, len(kinds))))
+        chosen = self.d(st.lists(st.sampled_from(kinds), min_size=n, max_size=n, unique=True))
+        aliases = []
+        for i, k in enumerate(chosen):
+            nm = 'Al%d' % (i + 1)
+            if nm in tnames:
+                continue
+            saved = P.kinds
+            P.kinds = [k]
+            try:
+                t = self.prim(mod, 0)
+            finally:
+                P.kinds = saved
+            mod.types.append((nm, t))
+            self.avail.append((mod.name, nm, k))
+            aliases.append(nm)
+        if not aliases:
+            return
+        names = self.member_names(len(aliases))
+        for cname in ('Dv', 'Dw'):
+            if cname in tnames:
+                continue
+            members = []
+            for nm, al in zip(names, aliases):
+                m = Member(nm, Ty('REF', ref=al))
+                r = self.d(st.integers(0, 99))
+                if r < 60 and P.defaults:
+                    self.try_default(m, mod)
+                elif r < 80 and P.optionals:
+                    m.optional = True
+                members.append(m)
+            t = Ty(self.pick(['SEQUENCE', 'SEQUENCE', 'SET']) if 'SET' in P.constructed else 'SEQUENCE',
+                   root=members)
+            mod.types.append((cname, t))
+            spec = Spec(self.modules)
+            self.fix_tags(spec, t, mod)
+            self.avail.append((mod.name, cname, t.kind))
 
     def ext_implied_fixup(self, t):
         """asn1tools applies EXTENSIBILITY IMPLIED only to member-lists it reaches
